@@ -89,6 +89,11 @@ BODIES = [
     ("default_argument_of_inner_lambda", "def m(x: int):\n    f = lambda z=R(t(1, 'a')): z\n    return ['m', f()]", (3,), None),
     ("decorated_inner_def", "def m(x: int):\n    def deco(g):\n        return lambda *a: ['decorated', g(*a)]\n    @deco\n    def inner(z=R(t(1, 'a'))):\n        return z\n    return ['m', inner()]", (3,), None),
     ("decorated_inner_generator", "def m(x: int):\n    def listify(g):\n        return lambda *a: list(g(*a))\n    @listify\n    def inner(z):\n        yield R(t(1, z))\n        yield z\n    return ['m', inner(str(x))]", (3,), None),
+    # the rewritten call starts on a LATER line than the statement / expression that contains it: line tables and tracebacks
+    ("multi_line_list", "def m(x: int):\n    return [\n        'm',\n        R(t(1, str(x))),\n        R(\n            t(2, 'b')\n        ),\n    ]", (3,), None),
+    ("multi_line_conditional", "def m(x: int):\n    return ['m', (\n        R(t(1, 'a'))\n        if x > 2\n        else R(t(2, 'b'))\n    )]", (3,), None),
+    ("multi_line_comprehension", "def m(x: int):\n    return ['m', [\n        R(t(i, str(i)))\n        for i in range(2)\n    ]]", (3,), None),
+    ("multi_line_exception_in_argument", "def m(x: int):\n    return ['m', (\n        1,\n        R(t(1, 'a'),\n          boom()),\n    )]", (3,), None),
     ("class_body_inside", "def m(x: int):\n    class K:\n        v = R(t(1, 'a'))\n    return ['m', K.v]", (3,), "classbody"),
     ("match_statement", "def m(x: int):\n    match R(t(1, 'a')):\n        case [tag, *rest]:\n            return ['m', tag, R(t(2, 'b'))]\n    return ['m']", (3,), None),
     ("return_in_finally", "def m(x: int):\n    try:\n        raise ValueError\n    except ValueError:\n        return ['m', R(t(1, 'a'))]\n    finally:\n        TRACE.append('f')", (3,), None),
